@@ -196,6 +196,8 @@ class Fn:
                 for j, st in enumerate(blk["s"]):
                     if st[0] == "a":
                         pl = st[1]
+                        if "*" in pl[1:]:
+                            continue      # a store through a pointer: the local is unchanged
                         d[pl[0]].append((i, j, st[2], len(pl) == 1))
                     elif st[0] == "sd":
                         d[st[1][0]].append((i, j, ["setdiscr", st[2]], False))
